@@ -745,6 +745,7 @@ package rux
 //@   modifies held(r.cachedRoutes.lock), entries(r.cachedRoutes.hashMap), lmem(r.cachedRoutes.list, _), rank(_), lclock(r.cachedRoutes.list), ln(r.cachedRoutes.list), lback(r.cachedRoutes.list)
 //@   panics r.OnPanic == nil || uf("hookPanics", bool, r.OnPanic)
 //@   ensures[C08] committed_exactly_once: hdrCalls(res) == 1 && !early(res)
+//@   ensures[C10, C03] context_returned_to_the_pool: forall c ref :: owned(c) ==> old(owned(c))
 
 //@ func (*responseWriter).Header [C08, C19, C20]
 //@   requires w.Writer != nil && !hastype(w.Writer, *responseWriter)
